@@ -1008,9 +1008,11 @@ pub fn edge_package(k: u64) -> Option<Vec<(String, Vec<u8>)>> {
     let ct = format!("{}<Types xmlns=\"http://schemas.openxmlformats.org/package/2006/content-types\"><Default Extension=\"rels\" ContentType=\"application/vnd.openxmlformats-package.relationships+xml\"/><Default Extension=\"xml\" ContentType=\"application/xml\"/><Override PartName=\"/xl/workbook.xml\" ContentType=\"application/vnd.openxmlformats-officedocument.spreadsheetml.sheet.main+xml\"/><Override PartName=\"/xl/worksheets/sheet1.xml\" ContentType=\"application/vnd.openxmlformats-officedocument.spreadsheetml.worksheet+xml\"/><Override PartName=\"/xl/styles.xml\" ContentType=\"application/vnd.openxmlformats-officedocument.spreadsheetml.styles+xml\"/><Override PartName=\"/xl/sharedStrings.xml\" ContentType=\"application/vnd.openxmlformats-officedocument.spreadsheetml.sharedStrings+xml\"/></Types>", DECL);
     let rels = format!("{}<Relationships xmlns=\"{}\"><Relationship Id=\"rId1\" Type=\"{}/officeDocument\" Target=\"xl/workbook.xml\"/></Relationships>", DECL, NS_PKG_REL, NS_R);
     let wrels = format!("{}<Relationships xmlns=\"{}\"><Relationship Id=\"rId1\" Type=\"{}/worksheet\" Target=\"worksheets/sheet1.xml\"/><Relationship Id=\"rId2\" Type=\"{}/styles\" Target=\"styles.xml\"/><Relationship Id=\"rId3\" Type=\"{}/sharedStrings\" Target=\"sharedStrings.xml\"/></Relationships>", DECL, NS_PKG_REL, NS_R, NS_R, NS_R);
-    let styles = format!("{}<styleSheet xmlns=\"{}\"><fonts count=\"1\"><font><sz val=\"11\"/><name val=\"Calibri\"/></font></fonts><fills count=\"1\"><fill><patternFill patternType=\"none\"/></fill></fills><borders count=\"1\"><border><left/><right/><top/><bottom/><diagonal/></border></borders><cellStyleXfs count=\"1\"><xf numFmtId=\"0\" fontId=\"0\" fillId=\"0\" borderId=\"0\"/></cellStyleXfs><cellXfs count=\"1\"><xf numFmtId=\"0\" fontId=\"0\" fillId=\"0\" borderId=\"0\" xfId=\"0\"/></cellXfs></styleSheet>", DECL, NS_MAIN);
+    let styles = format!("{}<styleSheet xmlns=\"{}\"><fonts count=\"1\"><font><sz val=\"11\"/><name val=\"Calibri\"/></font></fonts><fills count=\"1\"><fill><patternFill patternType=\"none\"/></fill></fills><borders count=\"1\"><border><left/><right/><top/><bottom/><diagonal/></border></borders><cellStyleXfs count=\"1\"><xf numFmtId=\"0\" fontId=\"0\" fillId=\"0\" borderId=\"0\"/></cellStyleXfs><cellXfs count=\"2\"><xf numFmtId=\"0\" fontId=\"0\" fillId=\"0\" borderId=\"0\" xfId=\"0\"/><xf numFmtId=\"2\" fontId=\"0\" fillId=\"0\" borderId=\"0\" xfId=\"0\" applyNumberFormat=\"1\"/></cellXfs></styleSheet>", DECL, NS_MAIN);
     let mut sheet_tag = "<sheet name=\"S\" sheetId=\"1\" r:id=\"rId1\"/>".to_string();
     let mut sst = "<si><t>x</t></si>".to_string();
+    let mut after_data = String::new();
+    let mut sheet_rels: Option<String> = None;
     let data = match k {
         // a shared-formula child left of / below its master whose relative reference would leave the grid
         1 => "<row r=\"2\"><c r=\"C2\"><f t=\"shared\" ref=\"B2:C3\" si=\"0\">A1+$A$1</f><v>1</v></c></row><row r=\"3\"><c r=\"B3\"><f t=\"shared\" si=\"0\"/><v>2</v></c><c r=\"C3\"><f t=\"shared\" si=\"0\"/><v>3</v></c></row>".to_string(),
@@ -1053,12 +1055,25 @@ pub fn edge_package(k: u64) -> Option<Vec<(String, Vec<u8>)>> {
         // (A1048576, XFD1): still inside; and, for the last child, one step beyond (-> #REF!)
         10 => "<row r=\"1\"><c r=\"A1\"><f t=\"shared\" ref=\"A1:B3\" si=\"0\">SUM(A3:A1048574)+XFC1+$A1048574+XFC$1</f><v>1</v></c><c r=\"B1\"><f t=\"shared\" si=\"0\"/><v>2</v></c></row><row r=\"2\"><c r=\"A2\"><f t=\"shared\" si=\"0\"/><v>3</v></c></row><row r=\"3\"><c r=\"A3\"><f t=\"shared\" si=\"0\"/><v>4</v></c><c r=\"B3\"><f t=\"shared\" si=\"0\"/><v>5</v></c></row>".to_string(),
         11 => "<row r=\"1\"><c r=\"A1\"><f t=\"shared\" ref=\"A1:C4\" si=\"0\">SUM(A3:A1048574)+XFC1</f><v>1</v></c></row><row r=\"4\"><c r=\"A4\"><f t=\"shared\" si=\"0\"/><v>3</v></c><c r=\"C4\"><f t=\"shared\" si=\"0\"/><v>4</v></c></row>".to_string(),
+        // the non-vacuity example of theorem C03_sheet (Thm/C03Sheet.lean `exampleSheet` / `sheetSis`): two shared
+        // groups, children right of / below left of the master, a row and cells without r, an inline string, <si/>
+        12 => {
+            sst = "<si><t>x</t></si><si/><si><r><t>a</t></r><r><t>b</t></r><rPh><t>y</t></rPh></si>".to_string();
+            "<row r=\"2\"><c r=\"C2\"><f t=\"shared\" ref=\"A2:D3\" si=\"0\">A1+$B$1</f><v>1</v></c><c><f t=\"shared\" si=\"0\"/><v>2</v></c></row><row><c t=\"s\"><f t=\"shared\" si=\"0\"/><v>1</v></c><c t=\"inlineStr\"><f t=\"shared\" si=\"0\"/><is><t>12</t></is></c><c s=\"1\" t=\"s\"><f t=\"shared\" ref=\"C3:C4\" si=\"7\">SUM(A$1:B2)</f><v>2</v></c></row><row><c r=\"C4\"><f t=\"shared\" si=\"7\"/></c></row>".to_string()
+        }
+        // the witness of C03_hyperlink_location_with_rid_fails: r:id and location on one hyperlink, next to the
+        // non-vacuity example of C03_hyperlinks (an external link with tooltip, an internal link) and two merges
+        13 => {
+            after_data = "<mergeCells count=\"2\"><mergeCell ref=\"A5:B6\"/><mergeCell ref=\"C5:XFD7\"/></mergeCells><hyperlinks><hyperlink ref=\"A1\" r:id=\"rId1\" location=\"S!B2\"/><hyperlink ref=\"A2\" r:id=\"rId2\" tooltip=\"tip\"/><hyperlink ref=\"B2\" location=\"'S 2'!A1\"/></hyperlinks>".to_string();
+            sheet_rels = Some(format!("{}<Relationships xmlns=\"{}\"><Relationship Id=\"rId1\" Type=\"{}/hyperlink\" Target=\"http://x/\" TargetMode=\"External\"/><Relationship Id=\"rId2\" Type=\"{}/hyperlink\" Target=\"http://x/?a=1&amp;b=2\" TargetMode=\"External\"/></Relationships>", DECL, NS_PKG_REL, NS_R, NS_R));
+            "<row r=\"1\"><c r=\"A1\"><v>1</v></c></row>".to_string()
+        }
         _ => return None,
     };
     let wb = format!("{}<workbook xmlns=\"{}\" xmlns:r=\"{}\"><sheets>{}</sheets></workbook>", DECL, NS_MAIN, NS_R, sheet_tag);
-    let sheet = format!("{}<worksheet xmlns=\"{}\" xmlns:r=\"{}\"><sheetData>{}</sheetData></worksheet>", DECL, NS_MAIN, NS_R, data);
+    let sheet = format!("{}<worksheet xmlns=\"{}\" xmlns:r=\"{}\"><sheetData>{}</sheetData>{}</worksheet>", DECL, NS_MAIN, NS_R, data, after_data);
     let sst = format!("{}<sst xmlns=\"{}\">{}</sst>", DECL, NS_MAIN, sst);
-    Some(vec![
+    let mut v: Vec<(String, Vec<u8>)> = vec![
         ("[Content_Types].xml".into(), ct.into_bytes()),
         ("_rels/.rels".into(), rels.into_bytes()),
         ("xl/workbook.xml".into(), wb.into_bytes()),
@@ -1066,10 +1081,14 @@ pub fn edge_package(k: u64) -> Option<Vec<(String, Vec<u8>)>> {
         ("xl/worksheets/sheet1.xml".into(), sheet.into_bytes()),
         ("xl/styles.xml".into(), styles.into_bytes()),
         ("xl/sharedStrings.xml".into(), sst.into_bytes()),
-    ])
+    ];
+    if let Some(r) = sheet_rels {
+        v.push(("xl/worksheets/_rels/sheet1.xml.rels".into(), r.into_bytes()));
+    }
+    Some(v)
 }
 
-pub const N_EDGE: u64 = 11;
+pub const N_EDGE: u64 = 13;
 
 pub fn zip_parts(parts: &[(String, Vec<u8>)], stored: bool) -> Vec<u8> {
     let mut buf: Vec<u8> = Vec::new();
@@ -1366,6 +1385,139 @@ pub fn run_case(out: &mut Out, header: &str) {
     };
     let reply = format!("errs=0;;view={}", v);
     out.end(&line, &reply, true);
+    // the Lean MODEL of the reader above the cell level (sheetData loop with shared groups, shared strings,
+    // hyperlinks, merges, sheet list, defined names) against the implementation: correspondence
+    for (name, data) in &parts {
+        if name.contains("sheet") && name.ends_with(".xml") && !name.contains("_rels") {
+            sheet_counters(out, data);
+        }
+    }
+    let line = "c03 model".to_string();
+    out.begin(&line);
+    let reply = format!("mview={}", mview_of(&v));
+    out.end(&line, &reply, true);
+}
+
+/// the modelled components of a view: sheet list, defined names, per sheet cells / merges / links
+pub fn mview_of(v: &str) -> String {
+    if v.starts_with("read-panicked") || v.starts_with("view-panicked") {
+        return "read-panicked".into();
+    }
+    if v.starts_with("read-error") {
+        return "read-error".into();
+    }
+    let chunks: Vec<&str> = v.split(" # ").collect();
+    let keep = |chunk: &str, keys: &[&str]| -> String { chunk.split(';').filter(|f| keys.iter().any(|k| f.starts_with(k))).collect::<Vec<_>>().join(";") };
+    let mut o = vec![keep(chunks[0], &["sheets=", "names="])];
+    for ch in &chunks[1..] {
+        o.push(keep(ch, &["cells=", "merges=", "links="]));
+    }
+    o.join(" # ")
+}
+
+/// distribution of the shared-formula groups and implied positions of one worksheet part (quick-xml scan,
+/// informational: what the whole-sheet theorem C03_sheet quantifies over actually occurs in the inputs)
+fn sheet_counters(out: &mut Out, data: &[u8]) {
+    use quick_xml::events::Event;
+    let mut rd = quick_xml::Reader::from_reader(data);
+    let mut buf = Vec::new();
+    let attr = |e: &quick_xml::events::BytesStart, k: &[u8]| -> Option<String> {
+        e.attributes().with_checks(false).flatten().find(|a| a.key.as_ref() == k).map(|a| String::from_utf8_lossy(&a.value).to_string())
+    };
+    let split = |r: &str| -> (u32, u32) {
+        let letters: String = r.chars().filter(|c| c.is_ascii_alphabetic()).collect();
+        let digits: String = r.chars().filter(|c| c.is_ascii_digit()).collect();
+        (letters.chars().fold(0u32, |a, c| a * 26 + (c.to_ascii_uppercase() as u32 - 64)), digits.parse().unwrap_or(0))
+    };
+    let (mut row, mut col) = (0u32, 0u32);
+    let mut masters: BTreeMap<String, (u32, u32)> = BTreeMap::new();
+    let (mut is_ws, mut rows_no_r, mut cells_no_r, mut children, mut inline, mut last_row_master) = (false, 0u64, 0u64, 0u64, 0u64, false);
+    let (mut left, mut above, mut right, mut below) = (0u64, 0u64, 0u64, 0u64);
+    let mut master_rows: Vec<u32> = vec![];
+    loop {
+        match rd.read_event_into(&mut buf) {
+            Ok(Event::Start(ref e)) | Ok(Event::Empty(ref e)) => match e.name().as_ref() {
+                b"worksheet" => is_ws = true,
+                b"row" => {
+                    match attr(e, b"r").and_then(|v| v.parse::<u32>().ok()) {
+                        Some(r) => row = r,
+                        None => {
+                            row += 1;
+                            rows_no_r += 1;
+                        }
+                    }
+                    col = 0;
+                }
+                b"c" => {
+                    match attr(e, b"r") {
+                        Some(r) => col = split(&r).0,
+                        None => {
+                            col += 1;
+                            cells_no_r += 1;
+                        }
+                    }
+                    if attr(e, b"t").as_deref() == Some("inlineStr") {
+                        inline += 1;
+                    }
+                }
+                b"f" => {
+                    if attr(e, b"t").as_deref() == Some("shared") {
+                        let si = attr(e, b"si").unwrap_or_default();
+                        match masters.get(&si) {
+                            None => {
+                                masters.insert(si, (col, row));
+                                master_rows.push(row);
+                            }
+                            Some(&(mc, mr)) => {
+                                children += 1;
+                                if col < mc {
+                                    left += 1;
+                                }
+                                if col > mc {
+                                    right += 1;
+                                }
+                                if row < mr {
+                                    above += 1;
+                                }
+                                if row > mr {
+                                    below += 1;
+                                }
+                            }
+                        }
+                    }
+                }
+                _ => {}
+            },
+            Ok(Event::Eof) | Err(_) => break,
+            _ => {}
+        }
+        buf.clear();
+    }
+    if !is_ws {
+        return;
+    }
+    if master_rows.iter().any(|r| *r == row) {
+        last_row_master = true;
+    }
+    out.count("sheet.scanned");
+    if !masters.is_empty() {
+        out.count("sheet.with-shared-groups");
+    }
+    if masters.len() >= 2 {
+        out.count("sheet.with-2+-shared-groups");
+    }
+    out.count_n("shared.groups", masters.len() as u64);
+    out.count_n("shared.children", children);
+    out.count_n("shared.child-left-of-master", left);
+    out.count_n("shared.child-right-of-master", right);
+    out.count_n("shared.child-above-master", above);
+    out.count_n("shared.child-below-master", below);
+    if last_row_master {
+        out.count("sheet.master-in-last-row");
+    }
+    out.count_n("sheet.rows-without-r", rows_no_r);
+    out.count_n("sheet.cells-without-r", cells_no_r);
+    out.count_n("sheet.inline-string-cells", inline);
 }
 
 pub fn gen(tier: Tier, seed: u64) -> Vec<String> {
